@@ -21,6 +21,33 @@ use serde_json::json;
 
 const MEM: u64 = 64 * 1024 * 1024;
 
+// Byte strings shared by many cases (ids, stored values, untouched memory runs) are defined once in
+// the header of the generated Coq files and referred to by name: elaborating literals is what
+// dominates the model-side run time.
+static INTERN: std::sync::Mutex<Vec<Vec<u8>>> = std::sync::Mutex::new(Vec::new());
+fn intern(b: &[u8], force: bool) -> String {
+    if b.len() < 12 {
+        return coq_bytes(b);
+    }
+    let mut t = INTERN.lock().unwrap();
+    if let Some(i) = t.iter().position(|x| x[..] == b[..]) {
+        return format!("b{i}");
+    }
+    if force {
+        t.push(b.to_vec());
+        return format!("b{}", t.len() - 1);
+    }
+    coq_bytes(b)
+}
+fn intern_defs() -> String {
+    let t = INTERN.lock().unwrap();
+    let mut s = String::new();
+    for (i, b) in t.iter().enumerate() {
+        s.push_str(&format!("Definition b{i} : bytes := {}.\n", coq_bytes(b)));
+    }
+    s
+}
+
 // ================================================================== Part A
 #[derive(Clone, Debug, PartialEq, Eq)]
 enum RR {
@@ -389,7 +416,9 @@ fn expected_after(c: &VmCase, mem_hp: u64, before: &Dump) -> Option<Dump> {
             let mut bytes = match mode {
                 0 => loaded(&find(&c.contracts, *a)?, *b, *cc as usize),
                 1 => loaded(&find(&c.blobs, *a)?, *b, *cc as usize),
-                _ => flat_read(before, mem_hp, a.checked_add(*b)?, *cc as usize)?,
+                // mode 2 reads its source after the stack has grown: a source inside the freshly
+                // allocated (zero) area is accessible
+                _ => flat_read(&d, mem_hp, a.checked_add(*b)?, *cc as usize)?,
             };
             bytes.resize(p as usize, 0);
             let s = c.ssp as usize;
@@ -454,7 +483,8 @@ fn case_from_json(v: &serde_json::Value) -> VmCase {
     VmCase { setup, ssp: u(&v["ssp"]), sp: u(&v["sp"]), hp: u(&v["hp"]), fp: u(&v["fp"]), max_size: u(&v["max_size"]), contracts: tbl(&v["contracts"]), blobs: tbl(&v["blobs"]), instr }
 }
 
-fn sparse(b: &[u8]) -> String {
+/// sparse dump as Coq term `segs [Sg start bytes; ...]`: maximal runs of non-zero bytes
+fn sparse(b: &[u8], force: bool) -> String {
     let mut v = vec![];
     let mut i = 0usize;
     while i < b.len() {
@@ -463,11 +493,21 @@ fn sparse(b: &[u8]) -> String {
             continue;
         }
         if b[i] != 0 {
-            v.push(format!("({i}, {})", b[i]));
+            let st = i;
+            while i < b.len() && b[i] != 0 {
+                i += 1;
+            }
+            let run = &b[st..i];
+            if run.len() > 8 && run.iter().all(|x| *x == run[0]) {
+                v.push(format!("Sg {st} (rep {} {})", run[0], run.len()));
+            } else {
+                v.push(format!("Sg {st} {}", intern(run, force)));
+            }
+        } else {
+            i += 1;
         }
-        i += 1;
     }
-    coq_list(&v)
+    format!("(segs {})", coq_list(&v))
 }
 
 fn vm_case(out: &mut Out, c: VmCase, class: &str) {
@@ -526,15 +566,19 @@ fn vm_case_inner(out: &mut Out, c: VmCase, class: &str) {
         Err(_) => {}
     }
     let exp = match &res {
-        Ok(d) => format!("(XOk {} {} {} {} {} {})", d.ssp, d.sp, d.reg, d.stack.len(), sparse(&d.stack), sparse(&d.heap)),
+        Ok(d) => {
+            // runs of the memory before the instruction are shared definitions
+            let _ = (sparse(&before.stack, true), sparse(&before.heap, true));
+            format!("(XOk {} {} {} {} {} {})", d.ssp, d.sp, d.reg, d.stack.len(), sparse(&d.stack, false), sparse(&d.heap, false))
+        }
         Err(k) => format!("(XErr {k})"),
     };
-    let st = |t: &Vec<([u8; 32], Vec<u8>)>| coq_list(&t.iter().map(|(k, v)| format!("({}, {})", coq_bytes(k), coq_bytes(v))).collect::<Vec<_>>());
+    let st = |t: &Vec<([u8; 32], Vec<u8>)>| coq_list(&t.iter().map(|(k, v)| format!("({}, {})", intern(k, true), intern(v, true))).collect::<Vec<_>>());
     let setup = coq_list(&c.setup.iter().map(|s| match s {
         Setup::GrowStack(n) => format!("SGrowStack {n}"),
         Setup::GrowHeap(n) => format!("SGrowHeap 0 {n}"),
         Setup::Write(a, d) if d.len() > 8 && d.iter().all(|x| *x == d[0]) => format!("SWrite {a} (rep {} {})", d[0], d.len()),
-        Setup::Write(a, d) => format!("SWrite {a} {}", coq_bytes(d)),
+        Setup::Write(a, d) => format!("SWrite {a} {}", intern(d, true)),
     }).collect::<Vec<_>>());
     let ins = match &c.instr {
         Instr::Ccp { dst, id, off, len } => format!("(ICcp {dst} {id} {off} {len})"),
@@ -563,7 +607,7 @@ fn vm_case_inner(out: &mut Out, c: VmCase, class: &str) {
 }
 
 fn part_b(args: &Args, out: &mut Out, rng: &mut Rng) {
-    let rounds = args.scale(3, 40);
+    let rounds = args.scale(2, 40);
     for round in 0..rounds {
         // two contracts and two blobs with lengths around word boundaries
         let l1 = *rng.pick(&[0usize, 1, 7, 8, 9, 24, 31, 32, 33, 100]);
@@ -711,5 +755,6 @@ fn main() {
     if args.oracle_only {
         out.cases.clear();
     }
-    out.write(&args, header, "sread_case", "bad_sread");
+    let header = format!("{header}\n{}", intern_defs());
+    out.write(&args, &header, "sread_case", "bad_sread");
 }
